@@ -133,6 +133,8 @@ pub fn strings() -> Vec<String> {
         "170141183460469231731687303715884105727", "170141183460469231731687303715884105728", "-170141183460469231731687303715884105728", "-170141183460469231731687303715884105729",
         "79228162514264337593543950335", "79228162514264337593543950336", "1.0000000000000000000000000000001", "0.00000000000000000000000000001", "1_000", "0x10", "1e400", "-1e400", "1e-400",
         "a", "b", "bc", "true", "none", "x\"y", "back\\slash", "item1",
+        // case mapping that depends on context or changes length: final sigma, ligatures, dotless/dotted i, titlecase digraphs
+        "ΟΔΟΣ", "ΑΣ ΑΣ.", "Σ", "aΣb", "ﬁn ﬂ", "ŉ", "ǰ", "ΐ", "ı", "I", "ǈ", "ᾳ", "ᾼ", "straße STRASSE", "éÉ",
     ]
     .iter()
     .map(|s| s.to_string())
